@@ -25,27 +25,33 @@ ID = "C15"
 LEVEL = "proof"
 ENGINES = ["lean-model", "pyextract", "purediff"]
 LEVEL_TEXT = (
-    "Lean theorems for all handlers/causes (unbounded label maps, patterns, registries; induction over lists): "
-    "match = the documented reading of docs/filters.rst -- full for update handlers and for non-changing causes, under the "
-    "exact guard 'the old state alone does not satisfy value=' for the other changing handlers (match_eq_doc_partial; the gaps "
-    "are *_witness theorems = open findings C15-F1/F2, plus the private-token abuse); the resource selector "
-    "(Selector.check after notation parsing) = the documented reading of docs/resources.rst except the undocumented "
-    "events.k8s.io exclusion (selector_check_iff_partial + witness = C15-F4); matchesMetadata_iff, dedup_*, selected_* are full. "
-    "'Invoked' (not only 'selected'): invoked_sound / invoked_doc / unmatched_never_invoked compose C02's "
-    "invoked_selected_awake with C15's selection -- every invoked handler satisfies its declared criteria and no handler "
-    "whose criteria fail is ever invoked; the converse (a matching handler IS invoked, when, how often) is C02/C03's "
-    "(recorded progress, lifecycle). Stealth: stealth_exact says exactly what a cycle does to an object nothing matches "
-    "(re-sends a carried-in handler transformation, removes a leftover own finalizer), stealth_*_partial are the clause under "
-    "the two visible guards, both with witnesses; the conclusion ranges over the model's Effect enumeration of "
-    "process_resource_causes (sleep-and-touch needs a matched handler's delay and is not modelled). `when=` and callbacks' "
-    "kwargs are opaque booleans by nature. The model's boolean skeletons are regenerated from the AST and re-proved equal on "
-    "every run; real match/prematch/get_handlers/_deduplicated/Selector.check/process_resource_event are compared with the "
-    "model on the criteria alphabet (thorough: the full product).")
-TIE = ("T (AST -> Lean for match/prematch/_matches_*/registry loops/Selector.check/finalizer decision/carried-patch exit, "
-       "re-proved equal to the model) + D over the criteria alphabet (quick: sampled; thorough: full product), over the "
-       "documented selector notations x a resource pool, and on real process_resource_event cycles (incl. a carried "
-       "remaining_patch; invoked handlers observed by their `param`); _deduplicated's loop and Selector.__post_init__'s "
-       "notation parsing are tied by D only")
+    "STRENGTH partial. Lean theorems for all handlers/causes (unbounded label maps, patterns, registries; induction over "
+    "lists). FULL (unguarded): matchesMetadata_iff/matchesLabels_iff; dedup_nodup/first_kept/sublist/ids_same and "
+    "selected_iff/selected_sound over the code's key (id(fn), id); invoked_sound, unmatched_never_invoked, "
+    "matching_due_invoked/matching_invoked_fresh (changing registry, both directions of 'exactly' under the all-at-once "
+    "lifecycle, composed with C02); stealth_exact (what a cycle does to an object nothing matches, over the model's Effect "
+    "enumeration). UNDER A NAMED GUARD (= open finding, each with a *_witness replayed from the corpus): "
+    "match = documented reading of docs/filters.rst under TokenFree (per handler AND cause: C15-F2 / private token) and "
+    "OldOnlyFree (C15-F1) -- match_eq_doc_partial, _update_partial, _nonchanging_partial, invoked_doc_partial; "
+    "'one FUNCTION under one id once' under OneObjectPerFunction (C15-F7: bound methods) -- dedup_function_once_partial; "
+    "Selector.check = docs/resources.rst except the events.k8s.io exclusion (observation, docs-only) -- "
+    "selector_check_iff_partial, resource_criterion_doc_partial; the stealth clause under 'own finalizer absent, nothing "
+    "carried in (C15-F5, by design), no lingering daemon (C15-F6)' -- stealth_total_partial, stealth_partial. "
+    "TIE/ORACLE ONLY: invoked = selected for on.event/daemon/timer/index handlers; `when=` and callbacks' kwargs (opaque "
+    "booleans); Selector notation parsing; _deduplicated's loop. 'Matched by no handler' is read as the code's prematch "
+    "(object-level criteria, ignoring old=/new=/'changed'); docs/filters.rst is inconsistent about a field handler on a "
+    "non-existent field (lines 331-336 vs 83-85): the oracle follows 83-85 (value default = PRESENT). The model's boolean "
+    "skeletons are regenerated from the AST and re-proved equal on every run; real match/prematch/get_handlers/"
+    "_deduplicated/Selector.check/process_resource_event(+apply) are compared with the model on the criteria alphabet "
+    "(thorough: the full product).")
+TIE = ("T (AST -> Lean for match/prematch/_matches_*/all four registry loops incl. ChangingRegistry's gate chain, "
+       "Selector.check, the finalizer decision / carried-patch exit / resumed-handlers filter of processing and apply's "
+       "touch decision, re-proved equal to the model) + D over the criteria alphabet (quick: sampled; thorough: full "
+       "product), over the documented selector notations x a resource pool, registries with plain functions and bound "
+       "methods, and on real process_resource_event cycles: single events with preset residues (carried patch, resumed "
+       "handlers, handlers that ask for a retry; daemon spawning/stopping stubbed) AND sequences of consecutive events on "
+       "one ResourceMemories with kopf's real spawn/match/stop of daemons (invoked handlers observed by `param`, touch "
+       "patches observed); _deduplicated's loop and Selector.__post_init__ are tied by D only")
 STRENGTH = "partial"   # see LEVEL_TEXT: several clauses hold only under named guards (= open findings) or rest on the tie
 THEOREMS = [("Kopf.Props.C15", "Kopf.C15." + n) for n in (
     "match_eq_doc_partial", "match_eq_doc_update_partial", "match_eq_doc_nonchanging_partial",
@@ -75,7 +81,9 @@ RULE = ("handler declaration = labels x annotations criterion in {none, 'x', 'y'
         "values (and '' label/annotation values and criteria, labels={}), in both tiers; cross-class pairs, "
         "random larger label maps, registries with duplicate registrations through kopf.on.*, every selector notation of "
         "docs/resources.rst x a pool of 10 resources (preferred/non-preferred versions, core and events.k8s.io events, "
-        "missing kind/singular), and whole process_resource_event cycles (with and without a carried remaining_patch); a "
+        "missing kind/singular), whole process_resource_event cycles (with and without a carried remaining_patch, preset "
+        "resumed_handlers, temporarily failing handlers, fields under spec/metadata/status) and 3-6-event sequences with real "
+        "daemons (obeying / ignoring `stopped`) where the label comes and goes and the finalizer follows kopf's own edits; a "
         "case is distinct by (criterion kinds, documented per-part verdicts, real match/prematch) and non-trivial when the "
         "handler has at least one criterion")
 TRUSTED = ["pyextract atom vocabularies for registries.match/prematch/_matches_*/registry loops, references.Selector.check and the "
@@ -84,7 +92,11 @@ TRUSTED = ["pyextract atom vocabularies for registries.match/prematch/_matches_*
            "Selector's fields into the model's records; webhook sub-resources are passed in as a boolean (C18's subject)",
            "`when=` and the kwargs of value callbacks are opaque: `when` is a boolean per (handler, cause), callbacks are pure "
            "boolean functions of the value; callbacks that raise or depend on kwargs are outside the model",
-           "C02's theorem invoked_selected_awake (Kopf.Props.C02) is used as stated there by Kopf.Props.C15_Invoked"]
+           "C02's theorems invoked_selected_awake and due_invoked_all_at_once (Kopf.Props.C02) are used as stated there by "
+           "Kopf.Props.C15_Invoked (while C02's files are being edited that one module may fail to build)",
+           "Obj.lingering / Obj.handlerDelays / Obj.carried / Obj.resumed are inputs of the cycle model observed on the real "
+           "run (outputs of match_daemons/stop_daemons, of the handlers, of earlier cycles): daemon life cycles are C09's, "
+           "the patch content of process_changing_cause is C02's"]
 ASSUMPTIONS = ["values are JSON (strings, integers, booleans, null, lists, objects; no floats). Python's bool/int coercion under == "
                "(True == 1, False == 0) is modelled explicitly on the Lean side (J.pyEq) and compared with the real code by the "
                "tie, but it is kept out of the judged set: the oracle leaves a case undefined when its documented verdict "
@@ -92,14 +104,15 @@ ASSUMPTIONS = ["values are JSON (strings, integers, booleans, null, lists, objec
                "a criterion is 'given' iff it `is not None` (model: VCrit.unset only for None; oracle: `is None` tests): "
                "'', 0, False, [], {} are ordinary literals",
                "the reason/initial/deleted gate of ChangingRegistry.iter_handlers is C05's model (Kopf.C05.gate), reused here",
-               "'selected' vs 'invoked': C15 proves selection = criteria and invoked => selected & criteria hold; that a selected "
-               "handler is actually invoked (awake, not finished, its turn under the lifecycle) is C02's/C03's; the cycle tie "
-               "observes the invoked handlers of fresh objects under all_at_once, where invoked = selected",
-               "stealth is proved over the model's Effect enumeration of process_resource_causes with consistency pre-proven "
-               "(consistency_time is None); memory.remaining_patch is an explicit input (Obj.carried; since /repo 1c8f3dd only "
-               "handlers' transformation fns are carried, the framework's finalizer edits are not) -- how it gets there is "
-               "C08's subject; application.apply's sleep-and-touch (needs a matched handler's delay) and progress records left "
-               "on an object that stopped matching while a cycle was open (C03) are not in the model",
+               "'selected' vs 'invoked': both directions are proved for the changing registry under all_at_once (a due matching "
+               "handler is invoked; an invoked handler matches); one-by-one/asap planning, sleeping and finished handlers are "
+               "C02's/C03's; statements are id-level (two functions under one id are not told apart); for on.event / daemons / "
+               "timers / indexes 'invoked = selected' is observed by the cycle tie only",
+               "stealth is proved over the model's Effect enumeration of process_resource_causes + application.apply with "
+               "consistency pre-proven (consistency_time is None) and an uninterrupted sleep; the touch is modelled for cycles "
+               "without handling only (what process_changing_cause leaves in the patch is C02's); closed-loop server writes are "
+               "not observed (patch_and_check is replaced, the next event is given, not derived, except the own finalizer in "
+               "sequences); progress records left on an object that stopped matching while a cycle was open are C03's (F2)",
                "Selector.__post_init__ (positional notation -> fields) is not modelled: the oracle reads the notation, the model "
                "reads the parsed fields, the tie compares both with the real check(); 'name.version.group' notations and the "
                "ambiguity resolution of Selector.select are not generated"]
@@ -684,7 +697,7 @@ def hspec(cls: str = "changing", *, fn: int = 0, id: str = "h", sel: str | None 
     `func`: which function it is (differs from `fn` only for `bound`: method k of one instance,
     accessed anew -- a fresh bound-method object -- for every registration)."""
     return {"_cls": cls, "fn": fn, "func": fn if func is None else func, "_bound": bound, "id": id, "ch": cls == "changing", "_sel": sel,
-            "sel": None if sel is None else sel == PLURAL, "sub": True, "l": l, "a": a, "w": w, "f": f,
+            "sel": None if sel is None else doc_selector(sel_decl(sel), ENV_RESOURCE), "sub": True, "l": l, "a": a, "w": w, "f": f,
             "v": v, "o": o, "n": n, "_fnc": fnc, "fnc": bool(fnc), "_rf": rf, "rf": bool(rf), "r": r,
             "_i": i, "i": bool(i), "_d": d, "d": bool(d)}
 
@@ -708,6 +721,25 @@ def state(cls: str = "changing", *, labels: dict | None = None, annotations: dic
     body.update(body_extra or {})
     return {"_cls": cls, "ch": cls == "changing", "l": dict(labels or {}), "a": dict(annotations or {}), "b": body,
             "o": old, "n": new, "r": reason, "i": initial, "m": marked}
+
+
+ENV_RESOURCE = dict(group="kopf.dev", version="v1", plural=PLURAL, kind="KopfExample", singular="kopfexample",
+                    shortcuts=["kex"], categories=["all"], preferred=True)     # = Env.resource
+
+
+def sel_decl(sel: Any) -> dict:
+    """a handler's selector as a notation of docs/resources.rst: a bare name, or {"args": [...], "kw": {...}}"""
+    return sel if isinstance(sel, dict) else {"args": [sel], "kw": {}}
+
+
+SEL_CHOICES: list = [PLURAL] * 8 + ["kex", "KopfExample", "kopfexample", "others",
+                                    {"args": ["kopf.dev", "v1", PLURAL], "kw": {}}, {"args": ["kopf.dev/v1", "kex"], "kw": {}},
+                                    {"args": ["kopf.dev", PLURAL], "kw": {}}, {"args": ["kopfexamples.kopf.dev"], "kw": {}},
+                                    {"args": ["zalando.org", PLURAL], "kw": {}}, {"args": ["kopf.dev/v2", PLURAL], "kw": {}},
+                                    {"args": [], "kw": {"kind": "KopfExample"}}, {"args": [], "kw": {"group": "kopf.dev", "shortcut": "kex"}},
+                                    {"args": [], "kw": {"category": "all"}}, {"args": [], "kw": {"category": "none"}},
+                                    {"args": ["*EVERYTHING*"], "kw": {}}, {"args": ["apps", "*EVERYTHING*"], "kw": {}},
+                                    {"args": [{"fn": "kex_preferred"}], "kw": {}}, {"args": [{"fn": "false"}], "kw": {}}]
 
 
 def lean_h(h: dict) -> dict:
@@ -884,7 +916,7 @@ def doc_parts_eq(h: dict, st: dict, dev: frozenset, eq: Callable[[Any, Any], boo
     if (h["_cls"] == "changing") != (st["_cls"] == "changing"):
         return None                                     # registries are typed: never paired in kopf
     parts = {
-        "selector": h["_sel"] is None or h["_sel"] == PLURAL,
+        "selector": h["_sel"] is None or doc_selector(sel_decl(h["_sel"]), ENV_RESOURCE),   # docs/resources.rst on the notation
         "labels": all(doc_check(c, st["l"].get(k, MISSING), META_CBS) for k, c in (h["l"] or [])),
         "annotations": all(doc_check(c, st["a"].get(k, MISSING), META_CBS) for k, c in (h["a"] or [])),
         "when": h["w"] is None or bool(h["w"]),
@@ -965,7 +997,8 @@ class Env:
         from kopf._core.reactor import inventory, processing
         self.__dict__.update(locals())
         self.resource = references.Resource("kopf.dev", "v1", PLURAL, kind="KopfExample", singular="kopfexample",
-                                            shortcuts=frozenset({"kex"}), namespaced=True, preferred=True)
+                                            shortcuts=frozenset({"kex"}), categories=frozenset({"all"}),
+                                            namespaced=True, preferred=True)
         self.indexers = indexing.OperatorIndexers()
         self.logger = logging.getLogger("verif.c15")
         self.logger.setLevel(logging.CRITICAL)
@@ -1029,8 +1062,16 @@ class Env:
     def when(self, w: Any) -> Any:
         return None if w is None else (when_true if w else when_false)
 
+    def sel_args(self, s: Any) -> tuple[list, dict]:
+        d = sel_decl(s)
+        args = [self.references.EVERYTHING if a == EVERYTHING else (SEL_CALLABLES[a["fn"]] if isinstance(a, dict) else a) for a in d["args"]]
+        return args, dict(d["kw"])
+
     def selector(self, s: Any) -> Any:
-        return None if s is None else self.references.Selector(s)
+        if s is None:
+            return None
+        args, kw = self.sel_args(s)
+        return self.references.Selector(*args, **kw)
 
     # ---- handlers through the dataclasses ----------------------------------------------------
     def handler(self, h: dict) -> Any:
@@ -1072,7 +1113,8 @@ class Env:
         reg = {"event": registry._watching, "index": registry._indexing, "timer": registry._spawning,
                "daemon": registry._spawning}.get(kind, registry._changing)
         before = len(reg._handlers)
-        getattr(on, kind)(h["_sel"], **kw)(fn_override or self.fn_of(h))
+        sargs, skw = self.sel_args(h["_sel"])
+        getattr(on, kind)(*sargs, **skw, **kw)(fn_override or self.fn_of(h))
         assert len(reg._handlers) == before + 1
         return reg._handlers[-1]
 
@@ -1170,7 +1212,7 @@ def crit_kind(c: Any) -> str:
 
 def h_kinds(h: dict) -> str:
     pk = lambda p: "-" if p is None else ("{}" if not p else "+".join(crit_kind(c) for _, c in p))
-    return "/".join([h["_cls"][0], "s" + ("-" if h["_sel"] is None else "1" if h["_sel"] == PLURAL else "0"),
+    return "/".join([h["_cls"][0], "s" + ("-" if h["_sel"] is None else str(int(bool(h["sel"])))),
                      pk(h["l"]), pk(h["a"]), "f" + ("-" if h["f"] is None else str(len(h["f"]))),
                      crit_kind(h["v"]), crit_kind(h["o"]), crit_kind(h["n"]), "c" + str(int(bool(h["_fnc"]))),
                      "w" + ("-" if h["w"] is None else str(int(h["w"])))])
@@ -1397,7 +1439,7 @@ def random_decl(rng: random.Random, cls: str) -> tuple[dict, str]:
     small = [None, None, None, {"v": "x"}, "P", "A", {"cb": "is_x"}]
     l, a = pat(LK, rng.choice(small)), pat(AK, rng.choice(small))
     w = rng.choice([None, None, None, True, True, False])
-    sel = rng.choice([PLURAL] * 9 + ["others"])
+    sel = rng.choice(SEL_CHOICES)
     fn = rng.randrange(3)
     bound = rng.randrange(2) if rng.random() < 0.15 else None
     hid = rng.choice(["a", "b", f"fn{fn}", f"fn{fn}"])
@@ -2163,10 +2205,10 @@ def run(ctx: Ctx) -> None:
     flush(rec, drv, reqs, pending)
 
     async def cycles() -> None:
-        for _ in range(ctx.budget(2500, 20000)):
+        for _ in range(ctx.budget(2000, 20000)):
             await run_cycle_case(env, rec, random_cycle_case(rng), reqs, pending)
         # consecutive events on the same in-memory records with kopf's REAL daemon spawning/stopping
-        for _ in range(ctx.budget(60, 600)):
+        for _ in range(ctx.budget(40, 600)):
             await run_cycle_case(env, rec, random_sequence_case(rng), reqs, pending)
     asyncio.run(cycles())
     flush(rec, drv, reqs, pending)
